@@ -276,9 +276,11 @@ fn rel_name(base: &str, abs: &[u8]) -> Option<String> {
 }
 
 /// the write-side operations on `base` between the two marker unlinks, in program order.
-fn read_strace(path: &Path, base: &str) -> Result<Vec<FsOp>, String> {
+fn read_strace(path: &Path, base: &str) -> Result<(Vec<FsOp>, Vec<FsOp>), String> {
     let text = std::fs::read_to_string(path).map_err(|e| format!("no strace output: {e}"))?;
     let mut ops: Vec<FsOp> = vec![];
+    let mut pre: Vec<FsOp> = vec![];
+    let mut ended = false;
     let mut fds: BTreeMap<i64, String> = BTreeMap::new();
     let mut active = false;
     // strace -f splits a call that overlaps another thread's call into `<unfinished ...>` and
@@ -329,15 +331,18 @@ fn read_strace(path: &Path, base: &str) -> Result<Vec<FsOp>, String> {
                 let Some(n) = rel_name(base, p) else { continue };
                 if n == "__BEGIN__" {
                     active = true;
-                    ops.clear();
                     continue;
                 }
                 if n == "__END__" {
                     active = false;
+                    ended = true;
                     continue;
                 }
                 if active {
                     ops.push(FsOp::Unlink { name: n, ok });
+                } else if !ended && ok {
+                    // the worker's own reopen (run_cycle's scan_directory) before the save
+                    pre.push(FsOp::Unlink { name: n, ok });
                 }
             }
             "open" | "openat" | "creat" => {
@@ -415,7 +420,7 @@ fn read_strace(path: &Path, base: &str) -> Result<Vec<FsOp>, String> {
             _ => {}
         }
     }
-    Ok(ops)
+    Ok((pre, ops))
 }
 
 // ---------------------------------------------------------------------------------------------
@@ -704,6 +709,7 @@ fn load_state(ctx: &Ctx, snap: &Snap) -> String {
 // ---------------------------------------------------------------------------------------------
 
 struct StepOut {
+    pre: Vec<FsOp>,
     trace: Vec<FsOp>,
     old: Snap,
     new: Snap,
@@ -737,9 +743,16 @@ fn run_worker(ctx: &Ctx, dir: &Path, script: &str) -> Result<StepOut, String> {
         }
     }
     let result = info.get("RESULT").cloned().unwrap_or_else(|| format!("crashed:{}", String::from_utf8_lossy(&out.stderr).chars().take(200).collect::<String>()));
-    let trace = read_strace(tr.path(), &base)?;
+    let (pre, trace) = read_strace(tr.path(), &base)?;
     let new = snapshot(dir);
-    Ok(StepOut { trace, old, new, expected: info.get("STATE").cloned(), result, info })
+    // what the worker's own reopen removed before the save started is part of the old state
+    let mut old = old;
+    for o in &pre {
+        if let FsOp::Unlink { name, .. } = o {
+            old.remove(name);
+        }
+    }
+    Ok(StepOut { pre, trace, old, new, expected: info.get("STATE").cloned(), result, info })
 }
 
 fn hexs(b: &[u8]) -> String {
@@ -884,6 +897,12 @@ impl Hist {
                 return;
             }
         };
+        if !so.pre.is_empty() {
+            let names: Vec<String> = so.pre.iter().filter_map(|o| if let FsOp::Unlink { name, .. } = o { Some(format!("unlink:{name}")) } else { None }).collect();
+            // not part of the replay: the worker does it again
+            s.line(&format!("pre {}", names.join(",")), "ok");
+            s.tally(&format!("{}:reopen-removed-stale-file", self.ctx.routine));
+        }
         let line = format!("step {script} | {}", model_params(&self.ctx, script, &so));
         s.line(&line, &trace_text(&so.trace));
         // replay lines carry only the script (the model parameters are recomputed)
@@ -1221,7 +1240,7 @@ fn replay_file(s: &mut Session, lines: &[String], thorough: bool) {
                     h.resume(s, a.parse().unwrap_or(0), b.parse().unwrap_or(0), v);
                 }
             }
-            Some("state") => {}
+            Some("state") | Some("pre") => {}
             _ => s.line(l, "bad-op"),
         }
     }
